@@ -228,7 +228,7 @@ fn talk<C: MlsConfig>(w: &mut World<C>, old: usize, new: &[usize], what: &str, o
 }
 
 fn scenario<C: MlsConfig>(rng: &mut Rng, mk: Mk<C>, out: &mut Out) {
-    let mut w: World<C> = new_world(Default::default(), "/tmp/vharness-scratch-c07");
+    let mut w: World<C> = new_world(Default::default(), &crate::util::scratch("c07"));
     let tree_ext = rng.chance(1, 2);
     let n0 = rng.range(1, 5) as usize;
     for i in 0..n0 + 3 {
@@ -664,8 +664,8 @@ pub fn run(o: &Opts) -> i32 {
     println!("cases {}", out.cases);
     println!("cover {}", out.cover.iter().cloned().collect::<Vec<_>>().join(";"));
     println!("oracle_failures {}", out.fails.len());
-    std::fs::write(format!("{dir}/c07.failures"), out.fails.iter().take(300).cloned().collect::<Vec<_>>().join("\n")).unwrap();
+    std::fs::write(format!("{dir}/c07.failures"), out.fails.iter().cloned().collect::<Vec<_>>().join("\n")).unwrap();
     std::fs::write(format!("{dir}/c07.samples"), out.samples.join("\n")).unwrap();
-    let _ = std::fs::remove_dir_all("/tmp/vharness-scratch-c07");
+    let _ = std::fs::remove_dir_all(&crate::util::scratch("c07"));
     0
 }
